@@ -55,7 +55,8 @@ func checkC16(c *an.Ctx) {
 			}
 			nCalls++
 			g := call.Call.StaticCallee()
-			if g == nil || g.Blocks == nil || an.Outer(g).Pkg != um.Pkg {
+			// (the dispatch may have moved to another package of the module, with the old name left as a forwarder)
+			if g == nil || g.Blocks == nil || !an.InModule(g) {
 				return
 			}
 			passed := 0
